@@ -125,6 +125,15 @@ CHECKS = {
             'all are built each block must have the same trial count and exactly the same sequences as its fresh twin, and '
             'the real mismatch checker must give the same verdicts on solver-generated sequences and single-cell changes.',
             'Histories are enumerated (listed scenarios x orders); the set equality per block is a solver verdict.', '6 C18'),
+    'C19': (OT, 'A', 'bounded exhaustive enumeration of call histories on real blocks; after each call object identity and the '
+                     'recompiled clause list are compared (solver-decided projection equality when they differ syntactically); '
+                     'final synthesis judged by the reference validator',
+            'All histories of length <=2 (plus 150 seeded / all of length 3) over 10 operations on 7 blocks (incl. a '
+            'continuous factor, a constrained weighted factor, a partial LatinSquare, Repeat, Nest): the block\'s design, '
+            'crossings, constraints and compiled formula are unchanged after every call, and a final synthesize_trials '
+            'returns the requested number of valid sequences with the same columns.',
+            'The quantifier over histories is enumeration; the formula comparison falls back to a solver query only when '
+            'the clause lists differ.', '6 C19'),
     'C20': (OT, 'B+A', 'CrossHair symbolic execution of the real converters on experiments with unconstrained symbolic values '
                        'and symbolic shape; CSV through an in-memory open() read back with the csv module; key sets of real sequences',
             'experiments_to_tuples/dicts are confirmed over all paths to reproduce every value in design order for plain, '
